@@ -55,3 +55,54 @@ def check_forwarding(model, rep, rule, attrs):
         rep.violation(rule, mem.qualname, what, mem.loc)
     if not probs:
         rep.holds(rule, f'{len(attrs)} attribute(s)', f'{n} forwarding getters/setters forward to their own property')
+
+
+def check_setter_stores(model, rep, rule, attrs):
+    """every accepting path of the setter of `attr` (followed through the forwarding chain by the evaluator) stores
+    exactly its argument in the field the getter of `attr` returns - a setter that validates and then drops the
+    value, or stores it under another attribute, leaves every reader with a stale value"""
+    from .sx import SX, Ov, CannotDecide, parse_annotation
+    sx = SX(model)
+    n = 0
+    for cls in sorted(c for c in model.subclasses('RotatingObject') if not model.is_abstract_class(c)):
+        for attr in attrs:
+            st = model.find_setter(cls, attr)
+            if st is None:
+                continue
+            par = st.node.args.args[1]
+            val = sx.typed_atom('ARG', parse_annotation(par.annotation, model), 'ARG')
+            cons = f'{cls}.{attr}[setter]'
+            try:
+                outs = sx.run(st.node, st.module, st.cls, Ov('self', cls, True), {par.arg: val})
+                done = [o for o in outs if o.kind in ('fall', 'return')]
+            except CannotDecide:
+                done = None
+            n += 1
+            if not done:
+                # evaluator does not follow this setter (signature inspection, class-valued argument): the final
+                # statement of the defining setter must be the store of the parameter
+                base = st
+                import ast as _ast
+                last = strip_docstring(base.node.body)[-1]
+                for _ in range(8):
+                    if not (isinstance(last, _ast.Expr) and isinstance(last.value, _ast.Call) and isinstance(last.value.func, _ast.Attribute)
+                            and last.value.func.attr == 'fset'):
+                        break
+                    up = model.find_setter(cls, attr, start_after=base.cls)
+                    if up is None:
+                        break
+                    base, last = up, strip_docstring(up.node.body)[-1]
+                ok = isinstance(last, _ast.Assign) and isinstance(last.targets[0], _ast.Attribute) \
+                    and last.targets[0].attr.strip('_') == attr and isinstance(last.value, _ast.Name)
+                rep.decide(ok, rule, cons, f'the setter does not end by storing its argument in its own field (`{_ast.unparse(last)[:60]}`)', loc=st.loc)
+                continue
+            bad = ''
+            for o in done:
+                stores = [e for e in o.state.effects if e[0] == 'store' and e[1] == 'self']
+                own = [e for e in stores if sx.canon_field(cls, e[2]) == attr or e[2].strip('_').endswith(attr)]
+                if len(own) != 1 or len(stores) != 1:
+                    bad = f'an accepting path stores {[e[2] for e in stores]} (exactly one store of its own field is specified)'
+                elif sx.show(own[0][3]) != sx.show(val):
+                    bad = f'the value stored is `{sx.show(own[0][3])[:60]}`, not the argument'
+            rep.decide(not bad, rule, cons, bad, loc=st.loc)
+    rep.inspect(n)
